@@ -34,3 +34,49 @@ Theorem C20_publish_commutes : forall cfg ck vl st l c upds st' r,
   publish cfg ck vl (d_tombstone st l c) upds = (d_tombstone st' l c, r).
 Proof. exact tombstone_publish_commute. Qed.
 Print Assumptions C20_publish_commutes.
+
+(* ------------------------------------------------------------------ the label's history after tombstoning *)
+From Akd Require Import NodeLabelFacts TreeFacts Binding DirRefine HistEnd TombHist.
+
+(* After ANY sequence of publish requests and tombstoning of label l up to epoch c: the history proof
+   served for any label l' (Complete or MostRecent n) verifies when missing values are allowed and
+   reports the same versions and epochs - tombstoned values empty, the others intact; a verifier in
+   Default mode still accepts it as long as no requested entry was tombstoned.  VRF premises as for
+   C02/C03. *)
+Theorem C20_history_verifies_after_tombstone :
+  forall cfg ck (vrf_label : bytes -> bool -> N -> option nlabel) (vrf_proof : bytes -> bool -> N -> option bytes)
+         (vrf_check : bytes -> bytes -> bytes -> option bytes) (pk : bytes),
+  canonical (c_empty_label cfg) = false ->
+  (forall l f v nl, vrf_label l f v = Some nl -> WF nl /\ canonical nl = true /\ llen nl = 256) ->
+  (forall l f v l' f' v' nl, vrf_label l f v = Some nl -> vrf_label l' f' v' = Some nl -> l = l' /\ f = f' /\ v = v') ->
+  (forall l f v nl pr, vrf_label l f v = Some nl -> vrf_proof l f v = Some pr ->
+     vrf_check pk pr (label_input_hash cfg l f v) = Some (lval nl)) ->
+  forall reqs l c l' params am p eh,
+  let st := run_publishes cfg ck vrf_label dir_new reqs in
+  key_history cfg ck vrf_label vrf_proof (d_tombstone st l c) l' params = DOk (p, eh) ->
+  (am = true \/ forall s, In s (hist_data st l' params) -> vr_value (tomb_state l c s) = vr_value s) ->
+  key_history_verify cfg vrf_check pk (snd eh) (fst eh) l' p params am =
+  Some (map entry (map (tomb_state l c) (hist_data st l' params))).
+Proof. exact tombstoned_history_verifies. Qed.
+Print Assumptions C20_history_verifies_after_tombstone.
+
+(* ... while a verifier that does not allow missing values rejects every history that includes an
+   entry whose value was replaced (or the bad event of the configuration occurred) *)
+Theorem C20_default_mode_rejects_tombstoned_history :
+  forall cfg ck (vrf_label : bytes -> bool -> N -> option nlabel) (vrf_proof : bytes -> bool -> N -> option bytes)
+         (vrf_check : bytes -> bytes -> bytes -> option bytes) (pk : bytes),
+  canonical (c_empty_label cfg) = false ->
+  (forall l f v nl, vrf_label l f v = Some nl -> WF nl /\ canonical nl = true /\ llen nl = 256) ->
+  (forall l f v l' f' v' nl, vrf_label l f v = Some nl -> vrf_label l' f' v' = Some nl -> l = l' /\ f = f' /\ v = v') ->
+  (forall l f v nl pr, vrf_label l f v = Some nl -> vrf_proof l f v = Some pr ->
+     vrf_check pk pr (label_input_hash cfg l f v) = Some (lval nl)) ->
+  forall reqs (Bad : Prop), Binding cfg Bad ->
+  (forall key lb ver value, Len64 (c_commitment_nonce cfg key lb ver value)) ->
+  forall l c l' params p eh,
+  let st := run_publishes cfg ck vrf_label dir_new reqs in
+  key_history cfg ck vrf_label vrf_proof (d_tombstone st l c) l' params = DOk (p, eh) ->
+  (forall s, In s (d_states st) -> Len64 (vr_value s)) -> d_epoch st < 2 ^ 64 ->
+  (exists s, In s (hist_data st l' params) /\ vr_value (tomb_state l c s) <> vr_value s) ->
+  key_history_verify cfg vrf_check pk (snd eh) (fst eh) l' p params false = None \/ Bad.
+Proof. exact tombstoned_history_rejected. Qed.
+Print Assumptions C20_default_mode_rejects_tombstoned_history.
